@@ -164,7 +164,14 @@ func GenCodecFile(r *R, idx int) *ir.File {
 		ann(card(fld("bigs", "sint64"), "repeated"), ir.Ann{Int64Enc: "NUMBER"}), ann(fld("as_str", "fixed64"), ir.Ann{Int64Enc: "STRING"}), fld("plain_i", "int64"))
 	msg("NullableAll",
 		ann(card(fld("maybe_s", "string"), "optional"), ir.Ann{Nullable: bp(true)}), ann(card(fld("maybe_i", "int64"), "optional"), ir.Ann{Nullable: bp(true)}),
-		ann(card(fld("maybe_b", "bool"), "optional"), ir.Ann{Nullable: bp(true)}), fld("plain_s", "string"))
+		ann(card(fld("maybe_b", "bool"), "optional"), ir.Ann{Nullable: bp(true)}), fld("plain_s", "string"),
+		// bytes: unset (nil) and present-but-empty ([]byte{}) are different values of an optional field
+		ann(card(fld("maybe_y", "bytes"), "optional"), ir.Ann{Nullable: bp(true)}))
+	// a nullable parent whose CHILD carries NUMBER-encoded 64-bit integers (their documented form is a bare JSON
+	// number, beyond 2^53 too) next to plain 64-bit members: the parent's decoder hands the document on untouched
+	msg("NullableWithBig",
+		ann(card(fld("maybe_s", "string"), "optional"), ir.Ann{Nullable: bp(true)}), mf("bign", "Int64Child"), card(mf("bigns", "Int64Child"), "repeated"),
+		fld("plain_u", "uint64"), card(fld("plain_is", "int64"), "repeated"))
 	msg("EmptyAll",
 		ann(mf("meta_preserve", "Spot"), ir.Ann{EmptyBehavior: "PRESERVE"}), ann(mf("meta_null", "Spot"), ir.Ann{EmptyBehavior: "NULL"}),
 		ann(mf("meta_omit", "Spot"), ir.Ann{EmptyBehavior: "OMIT"}), fld("plain_s", "string"))
